@@ -20,7 +20,8 @@ FAIL_STATUSES = {FullExeResultStatus.FAIL,
                  FullExeResultStatus.XPASS,
                  }
 
-ERROR_STATUSES = {FullExeResultStatus.VALIDATION_ERROR,
+ERROR_STATUSES = {FullExeResultStatus.SYNTAX_ERROR,
+                  FullExeResultStatus.VALIDATION_ERROR,
                   FullExeResultStatus.HARD_ERROR,
                   FullExeResultStatus.INTERNAL_ERROR,
                   }
